@@ -538,3 +538,6 @@ REGISTRY["C16"]["theorems"] += T("Proofs.C16b", "BLDFM.C16", ["timeseries_step_s
 
 # C10: any order / repeats, as corollaries
 REGISTRY["C10"]["theorems"] += T("Proofs.C10b", "BLDFM.C10", ["slice_depends_only_on_level", "slices_permuted", "repeated_level_same_slice"])
+
+# C20: the sector base function's geometry (the fourth of the four geometric base functions)
+REGISTRY["C20"]["theorems"] += T("Proofs.C20c", "BLDFM.C20", ["sector_is_neg_angle", "sector_range", "sector_zero_iff", "sector_scale_invariant"])
